@@ -140,6 +140,20 @@ PROPS['C20'] = dict(
     explanation='Job key injective in (path, reference); Clear/termination/restart remove exactly the actor\'s jobs; duplicate reference keeps one job; registries tied by lock-step; firing by a real-time monitor.',
 )
 
+PROPS['C07'] = dict(
+    modules=['Vivid.Props.C07'],
+    gens=[],
+    engines=[dict(name='sysfsm', must_hit=['ret:ok', 'ret:already-started', 'ret:already-stopped', 'ret:not-started', 'conc', 'census', 'cancel-before-start'])],
+    rule='sysfsm: real actor.System instances with real goroutines. (1) every sequential history of <= 3 (thorough 4) calls from {Start, Stop, cancel the context}: return value and status compared with the model after each call, '
+         'each call under a 1.5 s watchdog (BLOCKED / LOCKED are observations); (2) every pair of calls released concurrently after the prefixes [], [Start], [Start, Stop], repeated: every call must return, at most one Start / one Stop returns nil; '
+         '(3) goroutine census (frames under vivid / go-quartz) after a Start/Stop cycle. Non-trivial = every case; distinct = distinct call lists.',
+    exhaustive=True,
+    trusted_base=COMMON_TRUST + ['wall-clock watchdog (1.5 s) as the definition of "hangs"; runtime.Stack census as the goroutine observation'],
+    assumptions=['concurrent histories linearise at statusLock; remoting/cluster disabled in the engine (their shutdown is covered by C11/C14 engines only as far as they stop)',
+                 'partial: "never hangs", "within its timeout", "no goroutine left" are runtime facts observed, not proved'],
+    explanation='The FSM spec is the model; theorems: one-way status along every history, Start/Stop succeed at most once, answers after stop, cancel = stop; tie: exhaustive sequential histories + concurrent pairs + census on the real system.',
+)
+
 # Text of level_claimed per property (MANIFEST); NOT_APPLICABLE: properties not claimed, with reason.
 LEVEL_TEXT = {}
 NOT_APPLICABLE = {}
